@@ -56,6 +56,8 @@ type c11DevCase struct {
 	Error bool `json:"error,omitempty"`
 	// Loose: paths whose value is not asserted (what MaxElements reports next to Unbounded)
 	Loose []string `json:"loose,omitempty"`
+	// More: further deviation statements (aimed at another expansion of the grouping), written after the first
+	More string `json:"more,omitempty"`
 }
 
 func c11Dump(text string) (map[string]string, error) {
@@ -84,6 +86,9 @@ func c11DevRun(c c11DevCase, o *hx.Obs) {
 		base = c11DevBaseGrouped
 		o.Class("target expanded from a grouping used three times")
 	}
+	if c.More != "" {
+		o.Class("two expansions of the grouping deviated differently")
+	}
 	without, err := c11Dump(fmt.Sprintf(base, ""))
 	if err != nil {
 		o.Failf("harness|deviation-base", "%v", err)
@@ -91,7 +96,7 @@ func c11DevRun(c c11DevCase, o *hx.Obs) {
 	}
 	var with map[string]string
 	if o.Guard("LoadModule(deviation)", func() {
-		with, err = c11Dump(fmt.Sprintf(base, "deviation \""+c.Target+"\" { deviate "+c.Deviate+" }"))
+		with, err = c11Dump(fmt.Sprintf(base, "deviation \""+c.Target+"\" { deviate "+c.Deviate+" } "+c.More))
 	}) {
 		return
 	}
@@ -223,6 +228,39 @@ func c11DeviationTests(s *hx.Session) {
 			g := c
 			g.Grouped = true
 			if !yield(g) {
+				return
+			}
+		}
+		// two expansions of one grouping, each with a deviation of its own: what one gets the other must not
+		at9 := func(n string) string { return "/DataDefinitions[c9]/DataDefinitions[" + n + "]" }
+		mustSet := func(path, expr string, i int) map[string]string {
+			p := fmt.Sprintf("%s/Musts[%d]", path, i)
+			return map[string]string{p + "/Expression": expr, p + "/_kind": "Must", p + "/Description": "", p + "/Reference": "", p + "/ErrorMessage": "", p + "/ErrorAppTag": ""}
+		}
+		merge := func(ms ...map[string]string) map[string]string {
+			out := map[string]string{}
+			for _, m := range ms {
+				for k, v := range m {
+					out[k] = v
+				}
+			}
+			return out
+		}
+		atc := func(n string) string { return "/DataDefinitions[c]/DataDefinitions[" + n + "]" }
+		twins := []c11DevCase{
+			{Name: "twin-add-unique", Target: "/c/l", Deviate: "add { unique \"k a\"; }", More: "deviation \"/c9/l\" { deviate add { unique \"a b\"; } }",
+				Set: map[string]string{atc("l") + "/Unique[3][0]": "k", atc("l") + "/Unique[3][1]": "a", at9("l") + "/Unique[3][0]": "a", at9("l") + "/Unique[3][1]": "b"}},
+			{Name: "twin-delete-unique", Target: "/c/l", Deviate: "delete { unique \"a\"; }", More: "deviation \"/c9/l\" { deviate delete { unique \"b a\"; } }",
+				Gone: []string{atc("l") + "/Unique[0]", atc("l") + "/Unique[1]", atc("l") + "/Unique[2]", at9("l") + "/Unique[1]", at9("l") + "/Unique[2]"},
+				Set: map[string]string{atc("l") + "/Unique[0][0]": "b", atc("l") + "/Unique[0][1]": "a", atc("l") + "/Unique[1][0]": "k", atc("l") + "/Unique[1][1]": "b", at9("l") + "/Unique[1][0]": "k", at9("l") + "/Unique[1][1]": "b"}},
+			{Name: "twin-add-must", Target: "/c/x", Deviate: "add { must \"q\"; }", More: "deviation \"/c9/x\" { deviate add { must \"r\"; } }",
+				Set: merge(mustSet(atc("x"), "q", 2), mustSet(at9("x"), "r", 2))},
+			{Name: "twin-replace-type", Target: "/c/x", Deviate: "replace { type int32; }", More: "deviation \"/c9/x\" { deviate replace { type boolean; } }",
+				Set: map[string]string{atc("x") + "/Type/Format": "int32", atc("x") + "/Type/Ident": "int32", atc("x") + "/DefaultValue": "string:dflt", at9("x") + "/Type/Format": "boolean", at9("x") + "/Type/Ident": "boolean", at9("x") + "/DefaultValue": "string:dflt"}},
+		}
+		for _, tw := range twins {
+			tw.Grouped = true
+			if !yield(tw) {
 				return
 			}
 		}
